@@ -16,13 +16,13 @@ The property to break (it currently HOLDS in your worktree):
 
 Your task: produce TWO different, independent source changes (different code sites / different mechanisms), each of which
   (a) makes the project violate the property above for some inputs / operation sequences / configurations,
-  (b) still imports and runs, and keeps the existing test-suite result unchanged: run  cd {wt} && /venv/bin/python -m pytest -q -p no:cacheprovider --timeout=900 -rf 2>&1 | grep -E "^(FAILED|ERROR)|passed|failed" | sort > _before.txt  BEFORE your change (note: some tests fail already on the clean tree) and the same into _after.txt AFTER it: the two files must be identical (the suite takes about 10 seconds),
+  (b) still imports and runs, and keeps the existing test-suite result unchanged: run  cd {wt} && /venv/bin/python -m pytest -q -p no:cacheprovider --timeout=900 -rf 2>&1 | grep -E "^(FAILED|ERROR)|passed|failed" | sort > _before.txt  BEFORE your change (note: some tests fail already on the clean tree) and the same into _after.txt AFTER it: the two files must be identical (the suite takes about 90 seconds; ignore the wall-clock time in the summary line when comparing),
   (c) is REALISTIC - the kind of slip a maintainer could make in a refactoring or "small improvement" (off-by-one, wrong variable, cached value, reordered statements, wrong branch condition, an optimisation that is wrong for a corner case, state shared between calls, ...), a few lines at most, no comments announcing it,
   (d) needs something SPECIFIC to manifest - a particular boundary value or length, an unusual but legal input, a particular combination of options, a multi-step sequence of operations, a second call in the same process, two cooperating sites - NOT something that ordinary default use would expose at once.  Avoid changes that break every call.
 
 For each change write, under {wt}/_out/<n>/ (n = 1, 2):
   - patch.diff : `git diff` of the change against the worktree's HEAD (only the source change, no tests),
-  - demo.py    : a small self-contained program (run as `cd {wt} && /venv/bin/python _out/<n>/demo.py`) that exits 0 on the clean tree and exits non-zero (with a message saying what is wrong) when the change is applied. It must demonstrate the violation through the project's public behaviour (CLI mains / library API / produced files), not by inspecting the source,
+  - demo.py    : a small self-contained program (run as `cd {wt} && /venv/bin/python _out/<n>/demo.py`; IMPORTANT: start demo.py with `import os, sys; sys.path.insert(0, os.getcwd())` so that it imports the packages of the tree it is started in, not the installed copy) that exits 0 on the clean tree and exits non-zero (with a message saying what is wrong) when the change is applied. It must demonstrate the violation through the project's public behaviour (CLI mains / library API / produced files), not by inspecting the source,
   - meta.json  : {{"property": "{pid}", "summary": "...what was changed...", "needs": "...what specific input/sequence/configuration is needed for it to manifest...", "files": [...]}}.
 After producing each patch, verify yourself: demo fails with the patch, passes without it (use `git stash` / `git apply -R`), and the test-suite result is unchanged. Leave the worktree CLEAN (no applied change) at the end, with only the _out directory added. Keep everything else (scratch files) inside {wt} and delete them when done.
 
